@@ -1,21 +1,96 @@
-//! C02 -- inverse, determinant, transpose.
+//! C02 -- inverse, determinant, transpose, swaps.
 use crate::util::*;
 use crate::*;
 use cgmath::*;
 
-harnesses! { reg;
-fn c02_det2(m: Matrix2<R>) { vassert_eq("det2=leibniz", m.determinant(), det2(a2(m))); vcover("end"); }
-fn c02_det3(m: Matrix3<R>) { vassert_eq("det3=leibniz", m.determinant(), det3(a3(m))); vcover("end"); }
-fn c02_det4(m: Matrix4<R>) { vassert_eq("det4=leibniz", m.determinant(), det4(a4(m))); vcover("end"); }
-fn c02_inv4(m: Matrix4<R>) {
+macro_rules! per_dim { ($n:literal, $M:ident, $V:ident, $am:ident, $av:ident, $det:ident, $reg:ident;
+    $fdet:ident, $finv:ident, $fdetmul:ident, $ftr:ident, $fswap:ident, $fswape:ident, $frepl:ident) => {
+harnesses! { $reg;
+fn $fdet(m: $M<R>) {
+    vassert_eq("det=leibniz", m.determinant(), $det($am(m)));
+    vassert_eq("det(M^T)=det(M)", m.transpose().determinant(), $det($am(m)));
+    vcover("end");
+}
+// invert(): None exactly when det = 0 (the only case split, so "tiny but non-zero" is on the Some path)
+fn $finv(m: $M<R>) {
     match m.invert() {
-        None => { vcover("none"); vassert_eq("none=>det0", det4(a4(m)), z()); }
+        None => { vcover("none"); vassert_eq("none=>det0", $det($am(m)), z()); }
         Some(n) => {
             vcover("some");
-            vassert("some=>det!=0", det4(a4(m)) != z());
-            vassert_eq("M*N=I", a4(m * n), ident_n::<4>());
-            vassert_eq("N*M=I", a4(n * m), ident_n::<4>());
+            vassert("some=>det!=0", $det($am(m)) != z());
+            vassert_eq("M*N=I", $am(m * n), ident_n::<$n>());
+            vassert_eq("N*M=I", $am(n * m), ident_n::<$n>());
         }
     }
 }
+fn $fdetmul(a: $M<R>, b: $M<R>) {
+    vassert_eq("det(AB)=det(A)det(B)", (a * b).determinant(), $det($am(a)) * $det($am(b)));
+    vcover("end");
 }
+fn $ftr(a: $M<R>, b: $M<R>) {
+    vassert_eq("transpose involution", a.transpose().transpose(), a);
+    vassert_eq("(AB)^T=B^T A^T", (a * b).transpose(), b.transpose() * a.transpose());
+    let mut t = a; t.transpose_self();
+    vassert_eq("transpose_self=transpose", t, a.transpose());
+    vassert_eq("transpose=oracle", $am(a.transpose()), transpose_n($am(a)));
+    vcover("end");
+}
+// symbolic indices: the executor forks over every in-range pair
+fn $fswap(m: $M<R>, i: usize, j: usize) {
+    vassume(i < $n); vassume(j < $n);
+    let a = $am(m);
+    let mut r = m; r.swap_rows(i, j);
+    let mut c = m; c.swap_columns(i, j);
+    let ra = $am(r); let ca = $am(c);
+    let mut cc = 0; while cc < $n { let mut rr = 0; while rr < $n {
+        let sr = if rr == i { j } else if rr == j { i } else { rr };
+        let sc = if cc == i { j } else if cc == j { i } else { cc };
+        vassert_eq("swap_rows", ra[cc][rr], a[cc][sr]);
+        vassert_eq("swap_columns", ca[cc][rr], a[sc][rr]);
+        rr += 1; } cc += 1; }
+    vcover("end");
+}
+fn $fswape(m: $M<R>, ac: usize, ar: usize, bc: usize, br: usize) {
+    vassume(ac < $n); vassume(ar < $n); vassume(bc < $n); vassume(br < $n);
+    let a = $am(m);
+    let mut e = m; e.swap_elements((ac, ar), (bc, br));
+    let ea = $am(e);
+    let mut cc = 0; while cc < $n { let mut rr = 0; while rr < $n {
+        let want = if cc == ac && rr == ar { a[bc][br] } else if cc == bc && rr == br { a[ac][ar] } else { a[cc][rr] };
+        vassert_eq("swap_elements", ea[cc][rr], want);
+        rr += 1; } cc += 1; }
+    vcover("end");
+}
+fn $frepl(m: $M<R>, k: usize, col: $V<R>) {
+    vassume(k < $n);
+    let a = $am(m);
+    let mut e = m; let old = e.replace_col(k, col);
+    vassert_eq("replace_col returns old", $av(old), a[k]);
+    let ea = $am(e);
+    let mut cc = 0; while cc < $n { vassert_eq("replace_col installs", ea[cc], if cc == k { $av(col) } else { a[cc] }); cc += 1; }
+    vcover("end");
+}
+}
+}}
+pub mod d2 { use super::*; per_dim!(2, Matrix2, Vector2, a2, va2, det2, reg; c02_det2, c02_inv2, c02_detmul2, c02_tr2, c02_swap2, c02_swape2, c02_repl2); }
+pub mod d3 { use super::*; per_dim!(3, Matrix3, Vector3, a3, va3, det3, reg; c02_det3, c02_inv3, c02_detmul3, c02_tr3, c02_swap3, c02_swape3, c02_repl3); }
+pub mod d4 { use super::*; per_dim!(4, Matrix4, Vector4, a4, va4, det4, reg; c02_det4, c02_inv4, c02_detmul4, c02_tr4, c02_swap4, c02_swape4, c02_repl4); }
+
+harnesses! { reg0;
+// inverse_transform() of a matrix used as a transform is the same inverse
+fn c02_inverse_transform(m3: Matrix3<R>, m4: Matrix4<R>) {
+    vassert_eq("m3 as 2d", Transform::<Point2<R>>::inverse_transform(&m3), m3.invert());
+    vassert_eq("m3 as 3d", Transform::<Point3<R>>::inverse_transform(&m3), m3.invert());
+    vassert_eq("m4", Transform::<Point3<R>>::inverse_transform(&m4), m4.invert());
+    vcover("end");
+}
+// is_invertible is decided by the determinant (links C18's predicate to the inverse)
+fn c02_singular_rank1(u: Vector3<R>, v: Vector3<R>) {
+    // an exactly singular matrix: outer product u v^T
+    let m = Matrix3::from_cols(u * v.x, u * v.y, u * v.z);
+    vassert("rank1 not invertible", m.invert().is_none());
+    vcover("end");
+}
+}
+#[cfg(feature = "native")]
+pub fn reg() -> Vec<(&'static str, crate::HarnessFn)> { let mut v = reg0(); v.extend(d2::reg()); v.extend(d3::reg()); v.extend(d4::reg()); v }
